@@ -35,17 +35,18 @@ func init() {
 	register(&Property{
 		ID:        "C24",
 		Patterns:  []string{"./sql/procedures"},
-		Technique: "emitter/handler opcode sets read from composite literals and the dispatch switch (go/types), CFG must-pass-through for scope bracketing and label registration, constant tables of the goto resolver and the goto scope walker",
+		Technique: "emitter/handler opcode sets read from composite literals and the dispatch switch (go/types), CFG must-pass-through for scope bracketing and label registration, constant tables of the goto resolver and the goto scope walker; O7: abstract interpretation of each loop arm over emission positions (order of append / len reads) and symbolic following of the compiled jumps",
 		Explanation: "A stored procedure body is compiled by procedures.ConvertStmt into InterpreterOperation values and run by execOp's dispatch switch. Decided: (O1) every opcode that any " +
 			"InterpreterOperation literal emits has an arm in the dispatch switch whose default panics (an emitted but unhandled opcode crashes CALL); (O3) every emission of OpCode_ScopeBegin is followed " +
 			"on all non-error paths of the compiler by an emission of OpCode_ScopeEnd (DECLARE scoping: the interpreter pushes/pops one scope per pair); (O4) every emitted OpCode_Goto has a concrete " +
 			"Index (given in the literal, or assigned later to an alias of the literal) or a symbolic one (a negative constant, or the not-found value of GetLabel) that is a case of the resolver's " +
 			"switch and carries a Target label to resolve against; (O5) the compile-time label table has agreeing writers and readers: if some arm reads it (GetLabel, used by ITERATE), every loop arm " +
 			"(an arm that emits a Goto and calls the resolver) registers its label with NewLabel before any statement of its body is compiled, otherwise ITERATE inside that loop binds to a stale " +
-			"label of an earlier loop; (O6) the goto handler's scope walker replays scope ops consistently with the dispatch arms: the forward walk performs the same push/pop as executing the op, the backward walk the inverse.",
-		NotCovered: "the translation of each statement kind into the right jump targets, handler (DECLARE ... HANDLER) semantics, parameter modes, cursor semantics, expression evaluation; " +
+			"label of an earlier loop; (O6) the goto handler's scope walker replays scope ops consistently with the dispatch arms: the forward walk performs the same push/pop as executing the op, the backward walk the inverse; " +
+			"(O7) jump targets of the loop arms (WHILE, REPEAT, LOOP): each arm is abstracted to its layout — the order of appended ops, compiled body copies and len(*ops) reads (positions; derived by dataflow over the arm, not from names) — and jumps are followed over it: the index the resolver patches into ITERATE continues exactly like the normal end of every body copy (for WHILE: at the condition op, so the condition is re-tested); the back-edge gives the statement's sequence (WHILE: test before every body; REPEAT: body, then test after every body; LOOP: body after body); the exit test's target and the index patched into LEAVE are the arm's end; the resolver's scan range covers every body copy.",
+		NotCovered: "jump targets of IF / CASE / BEGIN…END / handlers (O7 covers the three loop statements only), the run-time execution of the ops, that the exit test's condition is the statement's condition (and its negation for REPEAT), handler (DECLARE ... HANDLER) semantics, parameter modes, cursor semantics, expression evaluation; " +
 			"handled-but-never-emitted opcodes are information only",
-		Run: func(c *Ctx) { runC24(c, real, 14) },
+		Run: func(c *Ctx) { runC24(c, real, 14); c24RunO7(c, real) },
 		Fixture: func(c *Ctx, fx2 *Prog) {
 			expectFixture(c, fx2, "c24: unhandled opcode, unbalanced scope, unresolvable goto, unregistered loop label, wrong walker table must be reported",
 				[]string{
